@@ -126,7 +126,7 @@ inductive Arg | none | msg (m : Nat) | sup (e : SupEv)
 inductive SpawnRet | ok | killed | nolink | startup (isPanic : Bool) (n : Nat)
   deriving DecidableEq, Repr, Inhabited
 
-inductive JoinRes | ok | cancelled
+inductive JoinRes | ok | cancelled | panic   -- `panic` is never produced by the model
   deriving DecidableEq, Repr, Inhabited
 
 /-- The per-actor trace alphabet: everything the harness observes about one actor. -/
@@ -820,6 +820,7 @@ def next (me : Nat) (s : St) : Ev → Except String St
   | .join .cancelled =>
     if !s.aborted then .error "c04.join-cancelled"
     else if s.sup.isSome && !s.terminalEmitted then .error "c04.missing-terminal" else .ok s
+  | .join .panic => .error "c04.join-panic"   -- the join handle must complete normally
   | _ => .ok s
 
 /-- The property as stated. -/
